@@ -150,6 +150,8 @@ def src(tokens, base_url):
     if len(tokens) in (1, 2):
         tokens, token = tokens[:-1], tokens[-1]
         if token.type == 'function' and token.lower_name == 'format':
+            if not tokens:
+                return
             tokens, token = tokens[:-1], tokens[-1]
         if token.type == 'function' and token.lower_name == 'local':
             return 'local', font_family(token.arguments, allow_spaces=True)
